@@ -125,7 +125,7 @@ impl<'s> Env for PsEnv<'s> {
                 };
                 self.pub_stream[p] = Some(id);
                 let st: futures::stream::BoxStream<'static, Result<Frame, SeliumError>> = Box::pin(MockStream { id, w: w.clone() });
-                self.tx.try_send(Socket::Stream(st)).expect("registration channel has room");
+                self.tx.clone().try_send(Socket::Stream(st)).expect("registration channel has room");
             }
             Sock::S(s) => {
                 let id = {
@@ -136,7 +136,7 @@ impl<'s> Env for PsEnv<'s> {
                     id
                 };
                 self.sub_sink[s] = Some(id);
-                self.tx.try_send(Socket::Sink(Box::pin(MockSink { id, w: w.clone() }))).expect("registration channel has room");
+                self.tx.clone().try_send(Socket::Sink(Box::pin(MockSink { id, w: w.clone() }))).expect("registration channel has room");
             }
         }
     }
